@@ -16,7 +16,7 @@ From J5V.lib Require Import Outcome Strcase.
 From J5V.model Require Import Entity EntityClient.
 From J5V.gen Require EntityGen.
 From J5V.proofs Require Import StrcaseProofs EntityProofs EntityGenProofs EntityReadmeProofs EntityClientProofs
-  EntitySpec EntitySpecProofs EntityAcceptProofs EntityListProofs.
+  EntitySpec EntitySpecProofs EntityAcceptProofs EntityListProofs EntityFieldTypes.
 Import ListNotations.
 Local Open Scope N_scope.
 
@@ -232,6 +232,24 @@ Example C17_key_flags_sample :
   /\ nth 1 (query_paths key_flags_sample) [] = bs "/foo/v1/foo/q/{both_id}/{shard_id}".
 Proof. exact key_flags_sample_ok. Qed.
 Print Assumptions C17_key_flags_sample.
+
+(* Field TYPES (round 4): for EVERY declaration the model compiles, each property of the Keys and of
+   the Data schema is the declared field - name, type read off the declaration (sp_declared_type:
+   scalars, well-known messages, references, arrays / maps of these, inline schemas as nested types
+   named Camel(field)), repeated, key flags primary / tenant / foreign key, never flattened - in
+   declaration order, nothing else in the message. *)
+Theorem C17_field_types_as_declared : forall e cs, compile e = Ok cs -> spec_field_types e cs.
+Proof. exact field_types_as_declared. Qed.
+Print Assumptions C17_field_types_as_declared.
+
+Example C17_field_types_sample :
+  is_ok (compile field_types_sample) = true
+  /\ map (fun k => sp_declared_type (k_def k)) (e_keys field_types_sample) = [TScalar 9 (bs "key")]
+  /\ map sp_declared_type (e_data field_types_sample) = [TScalar 3 (bs "integer")]
+  /\ map sp_repeated (e_data field_types_sample) = [true]
+  /\ map (fun k => sp_key_flags (k_def k)) (e_keys field_types_sample) = [(true, Some (bs "org"), None)].
+Proof. exact field_types_sample_ok. Qed.
+Print Assumptions C17_field_types_sample.
 
 (* NOT a clause of C17 (it is C18's "property names are unique within each object", seen from the
    declaration): State / Event have pairwise distinct JSON properties - after flattening the keys -
